@@ -79,7 +79,7 @@ def mc_family(name):
 # random documents
 # ------------------------------------------------------------------------------------------------------
 
-def random_doc(rng, max_nodes=40, anim_styles=False, space=False, ruby=True):
+def random_doc(rng, max_nodes=40, anim_styles=False, space=False, ruby=True, ruby_forms=False):
   den = rng.choice([1, 1, 2, 3, 25, 1001])
   D = 2 * den                                  # document times are even ticks
   span = 10 * den                              # times within [0, 10 s)
@@ -140,6 +140,38 @@ def random_doc(rng, max_nodes=40, anim_styles=False, space=False, ruby=True):
         r = rng.random()
         if r < 0.12:
           add("br", p)
+        elif r < 0.24 and ruby and ruby_forms and rng.random() < 0.5 and len(kind) + 22 <= max_nodes:
+          # the other documented ruby patterns: rb rp rt rp, and rbc rtc [rtc] with delimited annotation containers; any
+          # part may carry timing / display of its own (used for shape checks only: Ttml.tla models the plain rb rt pattern)
+          rk = add("ruby", p, timed=True, regable=False)
+
+          def part(k_, par):
+            own = rng.random() < 0.3
+            sk = add(k_, par, timed=own, regable=False)
+            if not own:
+              disp[sk - 1] = ""
+              anim[sk - 1] = []
+            if k_ in ("rb", "rt", "rp"):
+              sp = add("span", sk, timed=rng.random() < 0.15, regable=False)
+              tk = add("text", sp)
+              txt[tk - 1] = 1
+            return sk
+          if rng.random() < 0.4:
+            for k_ in ("rb", "rp", "rt", "rp"):
+              part(k_, rk)
+          else:
+            bc = part("rbc", rk)
+            for _b in range(rng.choice([1, 2])):
+              part("rb", bc)
+            for _c in range(rng.choice([1, 1, 2])):
+              tc = part("rtc", rk)
+              delim = rng.random() < 0.6
+              if delim:
+                part("rp", tc)
+              for _t in range(rng.choice([1, 2])):
+                part("rt", tc)
+              if delim:
+                part("rp", tc)
         elif r < 0.24 and ruby and len(kind) + 10 <= max_nodes:
           # an untimed ruby skeleton: ruby(rb(span(text)), rt(span(text)))
           # a third of them with timing / display / display animation on the base, the annotation or their spans: the
